@@ -63,6 +63,19 @@ func genWS(cfg Config, emit func(string, bool, []string)) {
 			if len(adds) > 0 {
 				add("add %s", strings.Join(adds, ","))
 			}
+			// WatchSet.Merge: another set (smaller, equal or larger, overlapping or not) merged in
+			if r.IntN(3) == 0 {
+				var ms []string
+				for i := 0; i < nch; i++ {
+					if r.IntN(2) == 0 {
+						ms = append(ms, strconv.Itoa(i))
+						inSet[i] = true
+					}
+				}
+				if len(ms) > 0 {
+					add("merge %s", strings.Join(ms, ","))
+				}
+			}
 			if r.IntN(8) == 0 {
 				add("clear")
 				inSet = map[int]bool{}
@@ -184,6 +197,21 @@ func (e *wsExec) Do(o *Out, f []string) string {
 			e.member[i] = true
 		}
 		e.ws.Add(cs...)
+		return "ok"
+	case "merge":
+		other := statedb.NewWatchSet()
+		var cs []<-chan struct{}
+		for _, i := range parseInts(f[1]) {
+			cs = append(cs, e.chans[i])
+			e.member[i] = true
+		}
+		other.Add(cs...)
+		e.ws.Merge(other)
+		for _, i := range parseInts(f[1]) {
+			if !other.Has(e.chans[i]) {
+				o.Fail("C20", "merge-changed-the-source-set", nil, fmt.Sprintf("after Merge the source set lost channel %d", i))
+			}
+		}
 		return "ok"
 	case "clear":
 		e.ws.Clear()
